@@ -1,7 +1,10 @@
 #!/bin/bash
-# try_seeded.sh <ID e.g. C07-3> [property]: apply the seeded change to /repo, run the property's check, undo
+# try_seeded.sh <ID e.g. C07-3> [property]: apply the seeded change to /repo, run the property's check, undo.
+# The evidence file of the property is put back afterwards (evidence must describe the unchanged tree).
 id=$1; p=${2:-${id%-*}}
+cp /verif/evidence/$p.json /tmp/.evidence_$p.$$ 2>/dev/null
 git -C /repo apply /verif/seeded/$id/patch.diff || { echo "$id: patch does not apply"; exit 2; }
 out=$(cd /verif && ./check $p 2>&1 | grep -E "VIOLATION|quick:" | tr '\n' ' ')
 git -C /repo checkout -- .
+[ -f /tmp/.evidence_$p.$$ ] && mv /tmp/.evidence_$p.$$ /verif/evidence/$p.json
 echo "$id [$p]: $out"
